@@ -49,6 +49,14 @@ CLAIMED = {
    text="Real leader and follower controllers wired by harness-owned in-memory streams: 2..32 concurrent writers (WriteBlock and Write callbacks) with RF 1/2/3/5, a yield/sleep hook between offset allocation and WAL append, per-link ack delays and a cursor cut/re-attach; hook and stream monitors check every write succeeds, own-response (version id read back), contiguous distinct WAL entries, consecutive apply offsets, commit monotone <= head and never beyond what RF/2 followers acknowledged for the whole prefix, commit == head at quiescence; runs under the race detector. The quorum tracker is additionally driven directly against a three-line model.",
    note="'All succeed' is restated as: every write returns OK before a generous watchdog while the quorum is healthy (watchdog => inconclusive, error => violation).",
    technique="invariant monitors on hooks and on the replication streams under concurrent stress + race detector + component model check"),
+ "C03": dict(engine="repl", level="exploration",
+   text="Seeded schedules on 3 or 5 real nodes (through the real ShardsDirector, harness-owned replication streams, the harness as coordinator): write bursts, stalled/delayed/cut links with re-delivery, restarts, wipes with snapshot install at several chunk sizes, leaders deposed with an unreplicated tail, elections with random majority fence sets. At every ack, in the follower's goroutine before the ack leaves, the follower's synced log is compared with the leader's at the newly acknowledged offsets; every database instance's applied offsets must be consecutive; at quiescence logs up to the commit offset and decoded DB dumps of replicas at the same commit offset must be identical. Runs under the race detector.",
+   note="The leader's log is the reference for its own term; a wiped node does not count towards a fencing quorum until it has caught up ('a majority keeps its disk'); nodes that AddFollower refuses for good are given an empty disk by the harness (availability matter, see DESIGN.md). Known protocol-level findings are classified by the shape of the divergence so that other divergences are still reported.",
+   technique="online invariant monitor at the ack hook + offline replica comparison at quiescence under fault injection + race detector"),
+ "C04": dict(engine="repl", level="exploration",
+   text="The C03 schedules with fences placed inside fire-and-forget write bursts while hooks delay the follower's sync goroutine and the writers. After every NewTerm answer the node's synced AND appended log end must equal the reported head and stay equal while polled, a client write must be refused, stale Truncate/BecomeLeader/AddFollower of the previous term must be refused and change nothing, and no ack above the reported head may leave on a stream of an older term.",
+   note="'Never again' is checked up to the end of each finite run; acks at or below the reported head that leave after the answer are not counted as progress (the entries are part of the reported log).",
+   technique="invariant monitor over hook and stream events with hook-widened fence windows + race detector"),
 }
 
 NOT_APPLICABLE = {}
